@@ -7,6 +7,8 @@ Line protocol for the C19 model (uses the *generated* `Gen.chooseConfig`).
   prog <t0> <stmt>*          exact distribution over outcomes of a behavior/compose body started at step t0
      stmt := W <n> | R <op> <op> | O <k> (<int> <rat>){k} | U <k> <int>{k}
            | C <form> <k> <item>{k} | S <form> <k> <item>{k}
+           | D <k> <item>{k}      the next local variable holds this dict (variables are numbered in order of appearance)
+           | CV <var> | SV <var>  `do choose d` / `do shuffle d` on the dict held in that variable
      op   := c<int> | p<nat>          form := d (dict, explicit weights) | t (tuple, default weight)
      item := <id> <rat|-> <prebits> <durdigits>     tables are indexed by min(step, len-1)
      output: `<status>,<endTime>,<t.kind.val;…|->=<num/den>` entries separated by spaces
@@ -72,38 +74,51 @@ def parseInts : Nat → List String → Option (List Int × List String)
   | _, _ => none
 
 /-- `fuel` = number of tokens (every statement consumes at least one) -/
-def parseStmts : Nat → List String → Option (List Stmt × List ItemTab)
-  | _, [] => some ([], [])
+def parseStmts : Nat → List String → Option (List Stmt × List ItemTab × Store)
+  | _, [] => some ([], [], [])
   | 0, _ => none
   | fuel + 1, "W" :: n :: ts => do
     let k ← n.toNat?
-    let (ss, tabs) ← parseStmts fuel ts
-    some (.wait k :: ss, tabs)
+    let (ss, tabs, st) ← parseStmts fuel ts
+    some (.wait k :: ss, tabs, st)
   | fuel + 1, "R" :: a :: b :: ts => do
     let lo ← parseOperand a
     let hi ← parseOperand b
-    let (ss, tabs) ← parseStmts fuel ts
-    some (.draw (.range lo hi) :: ss, tabs)
+    let (ss, tabs, st) ← parseStmts fuel ts
+    some (.draw (.range lo hi) :: ss, tabs, st)
   | fuel + 1, "O" :: n :: ts => do
     let k ← n.toNat?
     let (opts, rest) ← parseWeighted k ts
-    let (ss, tabs) ← parseStmts fuel rest
-    some (.draw (.weighted opts) :: ss, tabs)
+    let (ss, tabs, st) ← parseStmts fuel rest
+    some (.draw (.weighted opts) :: ss, tabs, st)
   | fuel + 1, "U" :: n :: ts => do
     let k ← n.toNat?
     let (opts, rest) ← parseInts k ts
-    let (ss, tabs) ← parseStmts fuel rest
-    some (.draw (.uniform opts) :: ss, tabs)
+    let (ss, tabs, st) ← parseStmts fuel rest
+    some (.draw (.uniform opts) :: ss, tabs, st)
   | fuel + 1, "C" :: form :: n :: ts => do
     let k ← n.toNat?
     let (its, tb, rest) ← parseItems form k ts
-    let (ss, tabs) ← parseStmts fuel rest
-    some (.choose its :: ss, tb ++ tabs)
+    let (ss, tabs, st) ← parseStmts fuel rest
+    some (.choose its :: ss, tb ++ tabs, st)
   | fuel + 1, "S" :: form :: n :: ts => do
     let k ← n.toNat?
     let (its, tb, rest) ← parseItems form k ts
-    let (ss, tabs) ← parseStmts fuel rest
-    some (.shuffle its :: ss, tb ++ tabs)
+    let (ss, tabs, st) ← parseStmts fuel rest
+    some (.shuffle its :: ss, tb ++ tabs, st)
+  | fuel + 1, "D" :: n :: ts => do
+    let k ← n.toNat?
+    let (its, tb, rest) ← parseItems "d" k ts
+    let (ss, tabs, st) ← parseStmts fuel rest
+    some (ss, tb ++ tabs, its :: st)
+  | fuel + 1, "CV" :: n :: ts => do
+    let k ← n.toNat?
+    let (ss, tabs, st) ← parseStmts fuel ts
+    some (.chooseVar k :: ss, tabs, st)
+  | fuel + 1, "SV" :: n :: ts => do
+    let k ← n.toNat?
+    let (ss, tabs, st) ← parseStmts fuel ts
+    some (.shuffleVar k :: ss, tabs, st)
   | _, _ => none
 
 def showStatus : Status → String
@@ -130,7 +145,7 @@ def parseRats : List String → Option (List Rat)
 def handle : List String → String
   | "prog" :: t0 :: ts =>
     match t0.toNat?, parseStmts (ts.length + 1) ts with
-    | some t, some (ss, tabs) => "ok " ++ showDist (exec Scenic.Gen.chooseConfig (mkEnv tabs) ss t [])
+    | some t, some (ss, tabs, st) => "ok " ++ showDist (exec Scenic.Gen.chooseConfig (mkEnv tabs) ss t [] st)
     | _, _ => "bad-prog"
   | "cidx" :: u :: _k :: ws =>
     match parseRat u, parseRats ws with
@@ -138,7 +153,7 @@ def handle : List String → String
     | _, _ => "bad-cidx"
   | ["config"] =>
     let c := Scenic.Gen.chooseConfig
-    s!"ok {c.defaultWeight} {c.shortcutLen} {c.shortcutIdx} {c.dropZero}"
+    s!"ok {c.defaultWeight} {c.shortcutLen} {c.shortcutIdx} {c.dropZero} {c.copyOperand}"
   | _ => "bad-op"
 
 end Driver.C19
